@@ -55,9 +55,11 @@ def one_case(ctx, case):
                 return
         rec = devmon.RecClient()
         router.register_client(rec)
+        tracks = [DV.Track(spec) for spec in specs]
         for op in hist:
             try:
                 H.apply_driver_op(drivers[op[1]], specs[op[1]], op)
+                tracks[op[1]].apply(op)
                 ctx.count("history_ops")
             except Exception as e:
                 ctx.count("history_ops_raised")
@@ -71,14 +73,14 @@ def one_case(ctx, case):
         devs = [None, "UNKNOWN_DEV"] + [s["name"] for s in specs]
         for dev in devs:
             for name in sorted(names, key=lambda x: (x is not None, str(x))):
-                request(ctx, case, tap, router, rec, drivers, specs, dev, name)
+                request(ctx, case, tap, router, rec, drivers, specs, tracks, dev, name)
                 if ctx.enough():
                     return
     finally:
         tap.close()
 
 
-def request(ctx, case, tap, router, rec, drivers, specs, dev, name):
+def request(ctx, case, tap, router, rec, drivers, specs, tracks, dev, name):
     from indi import message as M
     kw = {"version": "1.7"}
     if dev is not None:
@@ -89,16 +91,16 @@ def request(ctx, case, tap, router, rec, drivers, specs, dev, name):
     # expectation BEFORE the request (reading .value raises Read events, harmless here)
     want = {}
     addressed = []
-    for drv, spec in zip(drivers, specs):
+    for drv, spec, track in zip(drivers, specs, tracks):
         if dev is None or dev == spec["name"]:
             addressed.append(spec["name"])
-            for pname, prop in DV.expected_device(drv, spec).items():
+            for pname, prop in DV.expected_device(drv, spec, track).items():
                 if name is None or name == pname:
                     want[(spec["name"], pname)] = prop
     disabled = set()
-    for drv, spec in zip(drivers, specs):
+    for drv, spec, track in zip(drivers, specs, tracks):
         for ga, va, g, v in D.locate(spec):
-            if not DV.is_enabled(drv, ga, va):
+            if not DV.is_enabled(drv, ga, va, track):
                 disabled.add((spec["name"], v["name"]))
     tap.clear()
     rcase = dict(case, request=[dev, name])
@@ -152,7 +154,7 @@ def request(ctx, case, tap, router, rec, drivers, specs, dev, name):
 
 
 def run(ctx):
-    n = 250 if not ctx.thorough else 40000
+    n = 700 if not ctx.thorough else 60000
     for i in range(n):
         if not ctx.mine(i):
             continue
